@@ -208,6 +208,7 @@ func (prog *Program) resolveType(s string, pkg *types.Package) (types.Type, erro
 }
 
 func (prog *Program) typeTag(t types.Type) int {
+	t = canon(t)
 	k := types.TypeString(t, nil)
 	if n, ok := prog.typeTags[k]; ok {
 		return n
